@@ -58,6 +58,17 @@ func flatSig(fn *ssa.Function) string {
 	return strings.ReplaceAll(s, modPath+"/", "")
 }
 
+// sortedFlat: a flat signature with its parameter types in sorted order.
+func sortedFlat(flat string) string {
+	i := strings.Index(flat, ") ")
+	if !strings.HasPrefix(flat, "(") || i < 0 {
+		return flat
+	}
+	ps := strings.Split(flat[1:i], ", ")
+	sort.Strings(ps)
+	return "(" + strings.Join(ps, ", ") + flat[i:]
+}
+
 func pkgOf(P *Program, fn *ssa.Function) *packages.Package {
 	p := fn.Pkg
 	for f := fn; p == nil && f.Parent() != nil; f = f.Parent() {
@@ -320,7 +331,10 @@ func applyShapeAliases(P *Program, sp *Specs) []string {
 			if _, existed := old.Functions[n]; existed || strings.Contains(n, "$") {
 				continue
 			}
-			if fs.Sig == os0.Sig || (os0.Flat != "" && fs.Flat == os0.Flat) {
+			if fs.Sig == os0.Sig || (os0.Flat != "" && fs.Flat == os0.Flat) ||
+				(shortName(n) == shortName(k) && os0.Flat != "" && sortedFlat(fs.Flat) == sortedFlat(os0.Flat)) {
+				// same receiver and signature; or the receiver turned into the first parameter (or the reverse); or
+				// the same name with the same parameters in another order
 				cands = append(cands, n)
 			}
 		}
